@@ -78,11 +78,11 @@ Hypothesis ueqb_spec : forall a b, ueqb a b = true <-> a = b.
 Variable ustr : U -> str.
 Hypothesis ustr_inj : forall a b, ustr a = ustr b -> a = b.
 Hypothesis ustr_ne : forall a, ustr a <> [].
-(* the tree under check has the repairs of the export findings (regenerated probes) *)
-Hypothesis P_loose : loose_exit_rows = true.
-Hypothesis P_cases : pairs_follow_cases = true.
-Hypothesis P_save : split_rows_carry_save_name = true.
-Hypothesis P_group : group_split_without_cases_exports = true.
+Hypothesis Hrep : repaired.
+Notation P_loose := (rep_loose Hrep).
+Notation P_cases := (rep_cases Hrep).
+Notation P_save := (rep_save Hrep).
+Notation P_group := (rep_group Hrep).
 
 Lemma node_ok_good strip (m : node U) : node_ok U ueqb m = true -> (strip = true -> (List.length (n_actions m) <= 1)%nat) ->
   node_good U ueqb ustr strip m.
@@ -96,7 +96,7 @@ Proof.
     + exact Hs.
   - destruct kd.
     + apply andb_true_iff in Hn as [H1 H2]. assert (Ha : n_actions m = []) by (destruct (n_actions m); [reflexivity|discriminate]).
-      apply (switch_good U ueqb ueqb_spec ustr strip P_loose P_cases P_save P_group m r Ek Ha H2).
+      apply (switch_good U ueqb ueqb_spec ustr strip Hrep m r Ek Ha H2).
     + destruct (n_actions m) as [|a [|a' l]] eqn:Ea; try discriminate Hn; destruct a; try discriminate Hn.
       apply andb_true_iff in Hn as [H1 H2]. eapply enter_good; eauto.
     + destruct (n_actions m) as [|a [|a' l]] eqn:Ea; try discriminate Hn; destruct a; try discriminate Hn.
@@ -138,7 +138,7 @@ Theorem to_rows_means_flow_partial :
       /\ (forall t, traces (flow_of U ustr ns) t -> exists t', traces ref t' /\ Forall2 (ematch sexp (fun a b => smatch b a)) t t')
       /\ (forall t, traces ref t -> exists t', traces (flow_of U ustr ns) t' /\ Forall2 (ematch sexp smatch) t t').
 Proof.
-  intros P1 P2 P3 P4 U ueqb Hu ustr Hi Hn nb strip ns. exact (means_exportable U ueqb Hu ustr Hi Hn P1 P2 P3 P4 nb strip ns).
+  intros P1 P2 P3 P4 U ueqb Hu ustr Hi Hn nb strip ns. exact (means_exportable U ueqb Hu ustr Hi Hn (rep_intro P1 P2 P3 P4) nb strip ns).
 Qed.
 
 (* ---------------------------------------------------------------- examples (uuids = naturals) *)
